@@ -4,6 +4,7 @@ META = {
     "outside": ["DBUS_COOKIE_SHA1 first response, keyring files, SHA-1 itself, hex decoding of DATA (the second-response acceptance test is covered by C08.sha1)", "the byte-level line splitter (process_command) and the 16 KiB buffering bound (_dbus_auth_do_work)",
                 "transport side: _dbus_transport_try_to_authenticate, do_reading gate, kernel credentials", "client side of the handshake"],
 }
+QUICK_SHA = {(7, -1, 0), (7, 0, 1), (7, 3, 1), (7, 4, 1), (7, 2, 1), (7, 2, 2), (7, 6, 1), (7, 1, 3)}
 def jobs(tier):
     return [Job(name="server_step", group="C08.step", harness="harness/C08_auth.c", env=["assert_stubs.c"], checks="assert", unwind=6, unwindset=["strcmp.0:50"], timeout=600,
                 encodes=["handle_server_state_waiting_for_auth", "handle_server_state_waiting_for_data", "handle_server_state_waiting_for_begin", "handle_auth", "process_data",
@@ -14,9 +15,13 @@ def jobs(tier):
                 assumes=["invariant I on the pre-state (proved inductive by the same job)", "client never selects DBUS_COOKIE_SHA1 (outside the claim)"],
                 bounds="any of the 3 server states x 10 commands x symbolic mechanism choice / allowed list / credentials answers / failure counter 0..99 / max_failures 1..100; every string operation may fail",
                 shape="one server step")] + [
-            Job(name=f"sha1.L{l}", group="C08.sha1", harness="harness/C08_sha1.c", defines={"L": l, "H": 3}, real=["dbus/dbus-string.c"], env=["assert_stubs.c", "mem.c", "memfuncs.c"], checks="assert",
-                unwind=24, timeout=900, mem_gb=20, extra=["--object-bits", "12"], tiers=("quick", "thorough") if l == 7 else ("thorough",),
-                encodes=["sha1_handle_second_client_response", "sha1_compute_hash", "send_ok", "send_rejected", "shutdown_mech", "_dbus_string_find_blank", "_dbus_string_skip_blank", "_dbus_string_copy_len", "_dbus_string_equal"],
-                stubs=["_dbus_sha_compute = 3 solver-chosen hex characters (ghost digest)", "_dbus_keyring_get_hex_key = fails / empty key (unknown cookie id) / a key", "DBusCredentials ghost"],
-                assumes=["no allocation failure (--no-malloc-may-fail)", "digest shortened from 40 to 3 hex characters (the comparison code does not depend on the length)"],
-                bounds=f"DATA payload of exactly {l} arbitrary bytes, digest 3 hex characters, failures 0..5 of 6", shape=f"payload length {l}") for l in (5, 7, 9)]
+            Job(name=f"sha1.{'contract' if c else 'accept.K' + str(k)}.L{l}.B{bl}.{nb}".replace("-", "m"), group="C08.sha1", harness="harness/C08_sha1.c",
+                defines=dict({"L": l, "H": 3, "BL": bl, "NB": nb, "KEY": k}, **({"CONTRACT": 1} if c else {})), env=["assert_stubs.c", "mem.c", "memfuncs.c"], checks="assert",
+                unwind=l + 3, unwindset=["strlen.0:20", "memcpy.0:50", "memmove.0:50", "memmove.1:50", "send_rejected.0:5"], timeout=900, mem_gb=16, extra=["--object-bits", "12"], tiers=("quick", "thorough"),
+                encodes=(["_dbus_string_find_blank", "_dbus_string_skip_blank"] if c else ["sha1_handle_second_client_response", "sha1_compute_hash", "send_ok", "send_rejected", "shutdown_mech", "_dbus_string_copy_len", "_dbus_string_copy", "_dbus_string_equal", "_dbus_string_append"]),
+                stubs=[] if c else ["_dbus_sha_compute = 3 solver-chosen hex characters (ghost digest)", "_dbus_keyring_get_hex_key = fails / empty key (unknown cookie id) / a key (job shape K0/K1/K2)", "DBusCredentials ghost",
+                       "_dbus_string_find_blank / _skip_blank = their contract with the job's concrete answers (checked by the sha1.contract.* twin)", "_dbus_string_init = fixed 96-byte pool buffers (no heap growth)"],
+                assumes=["no allocation failure", "digest shortened from 40 to 3 hex characters (the comparison code does not depend on the length)"],
+                bounds=f"DATA payload of exactly {l} arbitrary bytes whose first blank is at {bl} (-1: none) followed by {nb - 1 if nb else 0} more blanks; digest 3 hex characters; failures 0..5 of 6",
+                shape=f"payload length {l}, blank run [{bl},{bl + nb})")
+            for l in (7,) for bl in range(-1, l) for nb in ((0,) if bl < 0 else range(1, l - bl + 1)) for c, k in ((0, 2), (1, 2), (0, 0), (0, 1)) if k == 2 or (bl, nb) == (3, 1)]
